@@ -27,4 +27,63 @@ PROPS = {
             "symbolic SHA-256: a preimage handle opens exactly the lock carrying the same handle (collision resistance)",
             "symbolic Schnorr as for C12",
         ]),
+    'C14': dict(
+        file='Props/C14.v',
+        streams=[('c14-decode', 'pure'), ('c14-roundtrip', 'pure')],
+        assumptions=[
+            "encoding/json and fxamacker/cbor are modelled by their contract (unmarshal (marshal t) = t on well-formed tokens); the harness exercises the real marshalers",
+            "the totality theorems hold for arbitrary unmarshal functions",
+        ]),
+    'C01': dict(
+        file='Props/C01.v',
+        streams=[('c01-hist', 'tie')],
+        assumptions=['symbolic cryptography in the mint model: a C field is genuine iff it is the term CSig keyset amount secret (one-more unforgeability of BDHKE, collision resistance of hash_to_curve); the algebra itself is C10', 'each storage.MintDB call is atomic and durable once it returns (SQLite); PRIMARY KEY/UNIQUE as in the migrations', 'the Lightning backend is the scripted lightning.Client of the harness; real LND/CLN adapters are not executed']),
+    'C02': dict(
+        file='Props/C02.v',
+        streams=[('c02-hist', 'tie')],
+        assumptions=['symbolic cryptography in the mint model: a C field is genuine iff it is the term CSig keyset amount secret (one-more unforgeability of BDHKE, collision resistance of hash_to_curve); the algebra itself is C10', 'each storage.MintDB call is atomic and durable once it returns (SQLite); PRIMARY KEY/UNIQUE as in the migrations', 'the Lightning backend is the scripted lightning.Client of the harness; real LND/CLN adapters are not executed']),
+    'C03': dict(
+        file='Props/C03.v',
+        streams=[('c03-hist', 'tie')],
+        assumptions=['symbolic cryptography in the mint model: a C field is genuine iff it is the term CSig keyset amount secret (one-more unforgeability of BDHKE, collision resistance of hash_to_curve); the algebra itself is C10', 'each storage.MintDB call is atomic and durable once it returns (SQLite); PRIMARY KEY/UNIQUE as in the migrations', 'the Lightning backend is the scripted lightning.Client of the harness; real LND/CLN adapters are not executed']),
+    'C05': dict(
+        file='Props/C05.v',
+        streams=[('c05-hist', 'tie')],
+        assumptions=['symbolic cryptography in the mint model: a C field is genuine iff it is the term CSig keyset amount secret (one-more unforgeability of BDHKE, collision resistance of hash_to_curve); the algebra itself is C10', 'each storage.MintDB call is atomic and durable once it returns (SQLite); PRIMARY KEY/UNIQUE as in the migrations', 'the Lightning backend is the scripted lightning.Client of the harness; real LND/CLN adapters are not executed']),
+    'C06': dict(
+        file='Props/C06.v',
+        streams=[('c06-hist', 'tie')],
+        assumptions=['symbolic cryptography in the mint model: a C field is genuine iff it is the term CSig keyset amount secret (one-more unforgeability of BDHKE, collision resistance of hash_to_curve); the algebra itself is C10', 'each storage.MintDB call is atomic and durable once it returns (SQLite); PRIMARY KEY/UNIQUE as in the migrations', 'the Lightning backend is the scripted lightning.Client of the harness; real LND/CLN adapters are not executed']),
+    'C09': dict(
+        file='Props/C09.v',
+        streams=[('c09-hist', 'tie')],
+        assumptions=['symbolic cryptography in the mint model: a C field is genuine iff it is the term CSig keyset amount secret (one-more unforgeability of BDHKE, collision resistance of hash_to_curve); the algebra itself is C10', 'each storage.MintDB call is atomic and durable once it returns (SQLite); PRIMARY KEY/UNIQUE as in the migrations', 'the Lightning backend is the scripted lightning.Client of the harness; real LND/CLN adapters are not executed']),
+    'C15': dict(
+        file='Props/C15.v',
+        streams=[('c15-hist', 'tie')],
+        assumptions=['symbolic cryptography in the mint model: a C field is genuine iff it is the term CSig keyset amount secret (one-more unforgeability of BDHKE, collision resistance of hash_to_curve); the algebra itself is C10', 'each storage.MintDB call is atomic and durable once it returns (SQLite); PRIMARY KEY/UNIQUE as in the migrations', 'the Lightning backend is the scripted lightning.Client of the harness; real LND/CLN adapters are not executed']),
+    'C16': dict(
+        file='Props/C16.v',
+        streams=[('c16-hist', 'tie')],
+        assumptions=['symbolic cryptography in the mint model: a C field is genuine iff it is the term CSig keyset amount secret (one-more unforgeability of BDHKE, collision resistance of hash_to_curve); the algebra itself is C10', 'each storage.MintDB call is atomic and durable once it returns (SQLite); PRIMARY KEY/UNIQUE as in the migrations', 'the Lightning backend is the scripted lightning.Client of the harness; real LND/CLN adapters are not executed']),
 }
+
+
+# ---- texts for MANIFEST.json (tools/genmanifest.py)
+_COND = dict(
+    text="Coq theorems over an executable model of the NUT-10/11/14 evaluators (accept <-> declarative spec, SIG_ALL, helpers), model tied to /repo by differential execution of the extracted model against the real verifiers and Mint.Swap/MeltTokens",
+    note="symbolic Schnorr/SHA-256; encoding/json trusted; see evidence.assumptions and TRUSTED.md", design_ref="DESIGN.md §5 C12/C13")
+_MINT_NOTE = "symbolic blind signatures (C10 has the algebra); SQLite calls atomic+durable; scripted Lightning client; model tied to the code by differential execution of random histories through the real Mint on SQLite; see evidence.assumptions and TRUSTED.md"
+LEVEL_TEXT = {
+    'C01': dict(text="Coq theorems over the mint state-machine model (every Mint method as a program over storage/Lightning calls): key invariants of the spent/pending/signature tables after every history of requests, injected storage faults, crashes at any call and arbitrary interleavings; spent is append-only; Swap/Melt reject every represented secret and change nothing; tied to /repo by differential execution of histories with replays of consumed and locked secrets", note=_MINT_NOTE),
+    'C02': dict(text="Coq theorems: swap outputs + input fees <= inputs (true sums, uint64 wrap written into the model), mint outputs <= quote amount, melt burns >= amount + fee reserve + input fees, fee limit handed to the backend = fee reserve; tied to /repo by differential execution of honest and adversarial histories with a conservation monitor", note=_MINT_NOTE),
+    'C03': dict(text="Coq theorems on the mint-quote machine (issuance needs a paid/settled quote, at most the quoted amount, marks ISSUED, refused afterwards, NUT-20 signature required, the watcher only moves UNPAID->PAID); tied to /repo by differential execution incl. late notifications and tampered signatures", note=_MINT_NOTE),
+    'C05': dict(text="Coq theorems characterising MeltTokens and the poll by the backend's answers (locked while possible, spent iff success with the backend's preimage, released only on failed/not-found, ambiguous answers are no-ops); tied to /repo by differential execution against scripted backends", note=_MINT_NOTE),
+    'C06': dict(text="Coq theorems: a refused Swap/MintTokens/MeltTokens leaves the store unchanged (up to the lazily recorded payment of a settled quote) and no model program reaches a Panic leaf on the paths proved; tied to /repo by differential execution with rejection causes compared and a state-snapshot monitor on every refusal", note=_MINT_NOTE),
+    'C09': dict(text="Coq theorems on rotation and reload (one active keyset, index+1, old rows kept, signatures only on the active keyset, per-keyset fees) plus the bit-level keyset derivation of C11; tied to /repo by differential execution of restart/rotation histories", note=_MINT_NOTE),
+    'C14': dict(text="Coq theorems: hex/base64 round trips, V3/V4 token round trip (modulo the marshaler contract), amount = sum, DecodeToken and all accessors total (no Panic leaf reachable); tied to /repo by differential execution of the real DecodeToken/NewToken/Serialize on generated tokens and arbitrary strings", note="encoding/json and cbor modelled by contract (exercised for real by the harness); see TRUSTED.md", design_ref="DESIGN.md §5 C14"),
+    'C15': dict(text="Coq theorems: RestoreSignatures returns exactly the stored rows for the queried B_s in request order and finds every signature ever returned, after any history; ProofsStateCheck reports the table state of each Y in request order; spent stays SPENT; tied to /repo by differential execution with mixed known/unknown/repeated queries", note=_MINT_NOTE),
+    'C16': dict(text="Coq theorems: the per-keyset views sum to the tables, TotalBalance = issued - redeemed without wrap under the stated bounds, each limit refuses as specified (incl. amounts >= 2^63 through the SQL driver rule), info.disabled iff balance >= max; tied to /repo by differential execution under limit configurations", note=_MINT_NOTE),
+    'C12': _COND, 'C13': _COND,
+}
+NOT_APPLICABLE = {}
